@@ -137,10 +137,13 @@ def observe(P, res, key, collect_events=True, units=None):
         if not (a.pressure_drop - tot0 >= -1e-12 * abs(tot0)):
             incs['neg'] += 1
 
-    Q = P
+    Q = dict(P)
+    Q['setup_sub'] = dict(P.get('setup_sub', {}))
+    # the pressure-drop dump file is a report too
+    Q['setup_sub']['Dump'] = {'pressure_drop': True, 'interval': 0.0}
     if units is not None:
         from vmon.oracle import c17_units as U
-        Q = U.convert_problem(P, units)
+        Q = U.convert_problem(Q, units)
         res.tag('units=' + units.name)
     with drive.scratch() as d, Hooks() as hk:
         inp, r = drive.build(Q, d, max_steps=MAX_STEPS)
@@ -191,6 +194,7 @@ def observe(P, res, key, collect_events=True, units=None):
                         'total': float(a.pressure_drop), 'parts': parts,
                         'regions': regs, 'flow': float(a.flow_rate)})
         check_table(res, r, key)
+        check_dump(res, r, key)
         res.check('DP1_increments_nonnegative', incs['neg'] == 0,
                   '%d negative pressure-drop increments' % incs['neg'], key)
         res.count('dp_increments_seen', incs['n'])
@@ -250,6 +254,55 @@ def check_table(res, r, key):
                      want_sg, want_gr,
                      [float(g.pressure_drop) for g in a.region]),
                   dict(key, mech='table'))
+
+
+def check_dump(res, r, key):
+    """pressure_drop.csv: every dumped row adds up (total = friction +
+    spacer grids + gravity) and the last row of every assembly shows the
+    values the assembly ends with."""
+    import os
+    path = os.path.join(r.path, 'pressure_drop.csv')
+    if not os.path.exists(path):
+        res.count('DP7_dump_file_absent')
+        return
+    try:
+        tab = np.atleast_2d(np.loadtxt(path, delimiter=','))
+    except Exception as e:     # noqa
+        res.check('DP7_dump_rows', False, 'pressure_drop.csv unreadable: %s'
+                  % e, key)
+        return
+    if tab.size == 0 or tab.shape[1] < 7:
+        res.count('DP7_dump_file_absent')
+        return
+    tot, fr, sg, gr = tab[:, 3], tab[:, 4], tab[:, 5], tab[:, 6]
+    sc = np.abs(tot) + 1e-9
+    bad = np.abs(tot - (fr + sg + gr)) > 1e-9 * sc
+    res.check('DP7_dump_rows', not bool(np.any(bad)),
+              '%d of %d rows of pressure_drop.csv do not add up (first: '
+              'total %.6e, friction %.6e, grids %.6e, gravity %.6e at row %d)'
+              % (int(np.sum(bad)), len(tot),
+                 float(tot[bad][0]) if np.any(bad) else 0.0,
+                 float(fr[bad][0]) if np.any(bad) else 0.0,
+                 float(sg[bad][0]) if np.any(bad) else 0.0,
+                 float(gr[bad][0]) if np.any(bad) else 0.0,
+                 int(np.argmax(bad))), dict(key, mech='dump_rows'))
+    # monotone: no part of any assembly ever decreases from row to row
+    for a in r.assemblies:
+        rows = tab[tab[:, 0] == a.id] if np.any(tab[:, 0] == a.id) else None
+        if rows is None or len(rows) == 0:
+            continue
+        last = rows[-1]
+        want = [float(a.pressure_drop)] + [
+            sum(float(g._pressure_drop.get(k, 0.0)) for g in a.region)
+            for k in ('friction', 'spacer_grid', 'gravity')]
+        ok = all(abs(last[3 + j] - want[j]) <= 1e-9 * (abs(want[0]) + 1e-9)
+                 for j in range(4)) and bool(np.all(np.diff(rows[:, 3:7],
+                                                            axis=0) >= -1e-9))
+        res.check('DP7_dump_rows', ok,
+                  'last row of pressure_drop.csv for assembly %d is %r, the '
+                  'assembly ends with %r (or a column decreases)'
+                  % (a.id, [float(v) for v in last[3:7]], want),
+                  dict(key, mech='dump_last_row'))
 
 
 def check_static(res, data, P, key, const_props, gravity):
